@@ -16,6 +16,7 @@
   `fixed = false` is the tree as it is.
 -/
 import FerrousSpec.Proofs.ZSetEngine
+import FerrousSpec.Gen.Expiry
 namespace Ferrous.C04
 open Ferrous Ferrous.ZSet Ferrous.ZSet.Code
 
@@ -426,6 +427,100 @@ theorem zincrby_nan_fails :
     absKey (Code.zincrbyCmd false 0 [110] .nan none).1 = [] ∧
     (Code.zincrbyCmd false 0 [110] .nan none).1 ≠ none ∧
     (Spec.zincrbyCmd .nan [110] []).2 = none := by decide
+
+/-! ## 7. One command is ONE step of the sorted-set machine (one storage call, one lock scope, one deadline test) -/
+
+/-- Tie to the code: the translator reads that handle_zadd / handle_zrem / handle_zpopmin / handle_zpopmax and the
+    script executor each make exactly one storage call (`zadd_many`, `zrem_many`, `zpop`) and no per-member
+    `storage.zadd(` / `storage.zrem(` call (translator/expiry_tables.py, regenerated on every run).  That each of
+    these functions reaches the shard once and holds its write lock to the end is read off their bodies by
+    lib/c04.py (`source_switches`: one `get_shard(`, one `.write()`, both in front of the loop). -/
+theorem tree_zset_one_call : Gen.zsetOneCall = true := by decide
+
+/-- An accepted multi-member `ZADD k pairs` (tree since db4c992): whatever the environment does — the key's
+    deadline passing before the call (`deadAt = some 0`), during it or after it (`some (i+1)`, `none`) — the stored
+    set is the fold of the single inserts over the state at ONE instant (the live set, or the empty set when the key
+    was dead at that instant), the reply is the number of members that were new at that instant, and there is NO
+    intermediate state another reader (a BGSAVE copy, another connection) could observe between two pairs. -/
+theorem zadd_is_one_step (hs : List Nat) (vs : List (Score × Bytes)) (deadAt : Option Nat) (k : ZKey) (hk : KeyInv k) :
+    KeyInv (zaddSched true hs vs deadAt k).1 ∧
+    absKey (zaddSched true hs vs deadAt k).1 = Spec.zaddAll vs (if deadAt = some 0 then [] else absKey k) ∧
+    (zaddSched true hs vs deadAt k).2.1 =
+      (Spec.zaddAll vs (if deadAt = some 0 then [] else absKey k)).length - (if deadAt = some 0 then [] else absKey k).length ∧
+    (zaddSched true hs vs deadAt k).2.2 = [] := by
+  unfold zaddSched
+  simp only [if_true]
+  by_cases hd : deadAt = some 0
+  · have h := zaddMany_refines vs hs none 0 keyInv_none
+    simp only [hd, if_true]
+    exact ⟨h.1, h.2.1, by rw [h.2.2]; simp [absKey], trivial⟩
+  · have h := zaddMany_refines vs hs k 0 hk
+    simp only [hd, if_false]
+    exact ⟨h.1, h.2.1, by rw [h.2.2]; simp, trivial⟩
+
+/-- WITNESS (hunt d1/d2, the loop before db4c992): with one storage call per pair, the deadline falling between
+    the two pairs of `ZADD z 0 a 1 b` on `{seed:-1}` leaves `{b}` (without the old key's TTL) although the reply says 2
+    — neither all pairs on the live key nor all pairs on a fresh one — and a reader between the calls sees the
+    half-applied `{seed, a}`. -/
+theorem zadd_per_pair_not_one_step :
+    let k := runCmds false [.zadd 0 [115] (.fin (-1))]
+    let r := zaddSched false [0, 0] [(.fin 0, [97]), (.fin 1, [98])] (some 1) k
+    absKey r.1 = [(.fin 1, [98])] ∧ r.2.1 = 2 ∧
+    r.2.2.map absKey = [[(.fin (-1), [115]), (.fin 0, [97])]] ∧
+    absKey r.1 ≠ Spec.zaddAll [(.fin 0, [97]), (.fin 1, [98])] (absKey k) ∧
+    absKey r.1 ≠ Spec.zaddAll [(.fin 0, [97]), (.fin 1, [98])] [] := by decide
+
+/-- `ZREM k members` and `ZPOPMIN/ZPOPMAX k count` are single steps too: the storage calls `zrem_many` / `zpop`
+    compute, on the one state they lock, exactly the prescribed result and reply. -/
+theorem zrem_zpop_one_step (k : ZKey) (hk : KeyInv k) (ms : List Bytes) (max : Bool) (count : Nat) :
+    (KeyInv (zremMany ms k 0).1 ∧ absKey (zremMany ms k 0).1 = Spec.zremAll ms (absKey k) ∧
+      (zremMany ms k 0).2 = (absKey k).length - (Spec.zremAll ms (absKey k)).length) ∧
+    (KeyInv (zpopMany max count k []).1 ∧ absKey (zpopMany max count k []).1 = (Spec.zpopN max count (absKey k)).1 ∧
+      (zpopMany max count k []).2 = ((Spec.zpopN max count (absKey k)).2).map lift) := by
+  have h1 := zremMany_refines ms k 0 hk
+  have h2 := zpopMany_refines max count k [] hk
+  exact ⟨⟨h1.1, h1.2.1, by rw [h1.2.2]; simp⟩, ⟨h2.1, h2.2.1, by rw [h2.2.2]; simp⟩⟩
+
+/-! ## 8. Argument validation of the range commands; the empty pop reply -/
+
+/-- FULL (repaired handlers/parsers): after the bounds only WITHSCORES is accepted, anything else is a syntax
+    error; a NaN score bound is refused, any other pair of bounds is passed on unchanged; a pop that pops nothing
+    answers the empty array. -/
+theorem range_arguments_checked (opt : Option Bool) (lo hi : CScore) :
+    Code.rangeOption true opt = Spec.rangeOption opt ∧
+    Code.scoreBounds true lo hi = (Spec.scoreBounds lo hi).map (fun p => (CScore.num p.1, CScore.num p.2)) ∧
+    zpopEmptyIsNull true = false := by
+  refine ⟨?_, ?_, rfl⟩
+  · cases opt with
+    | none => rfl
+    | some b => cases b <;> rfl
+  · cases lo <;> cases hi <;> simp [Code.scoreBounds, Spec.scoreBounds]
+
+/-- PARTIAL (handlers as they are): WITHSCORES or nothing after the bounds, and numeric bounds, are treated as prescribed. -/
+theorem range_arguments_partial (opt : Option Bool) (ho : opt ≠ some false) (lo hi : Score) :
+    Code.rangeOption false opt = Spec.rangeOption opt ∧
+    Code.scoreBounds false (.num lo) (.num hi) = (Spec.scoreBounds (.num lo) (.num hi)).map (fun p => (CScore.num p.1, CScore.num p.2)) := by
+  constructor
+  · cases opt with
+    | none => rfl
+    | some b => cases b with
+      | true => rfl
+      | false => exact absurd rfl ho
+  · simp [Code.scoreBounds, Spec.scoreBounds]
+
+/-- WITNESS (hunt d3): as they are the handlers answer `ZRANGE z 0 -1 REV` / `… WITHSCORE` / `ZRANGEBYSCORE z 1 3 LIMIT`
+    as the plain command, and a NaN bound reaches `range_by_score`: on `a:1 b:2 c:3`, `ZCOUNT z nan 2` counts 2
+    (a NaN minimum acts like -inf) and `ZCOUNT z 1 nan` counts 0 where "min or max is not a float" is prescribed. -/
+theorem range_arguments_fail :
+    Code.rangeOption false (some false) = some false ∧ Spec.rangeOption (some false) = none ∧
+    Code.scoreBounds false .nan (.num (.fin 2)) = some (.nan, .num (.fin 2)) ∧ Spec.scoreBounds .nan (.num (.fin 2)) = none ∧
+    Code.zcount .nan (.num (.fin 2)) (runCmds false abc) = 2 ∧
+    Code.zcount (.num (.fin 1)) .nan (runCmds false abc) = 0 ∧
+    Code.zrangebyscore .nan .nan false (runCmds false abc) = [] := by decide
+
+/-- WITNESS (hunt d4): as they are ZPOPMIN / ZPOPMAX answer the null array when nothing is popped. -/
+theorem zpop_empty_reply_fails : zpopEmptyIsNull false = true ∧ (zpopMany false 5 none []).2 = [] ∧
+    (zpopMany true 0 (runCmds false abc) []).2 = [] := by decide
 
 /-! ## Non-vacuity: concrete non-trivial instances of the hypotheses -/
 
